@@ -9,6 +9,7 @@ import (
 	"go/ast"
 	"go/token"
 	"go/types"
+	"os"
 	"path/filepath"
 	"sort"
 	"strings"
@@ -323,10 +324,11 @@ type env struct {
 	bound  map[*types.Var]oset
 	cache  map[*types.Var]oset
 	busy   map[*types.Var]bool
+	fields map[*types.Var]map[string]oset // receiver/parameter bound to a struct literal: what its fields were initialised with
 }
 
 func (a *analyzer) newEnv(fn *funcInfo, parent *env) *env {
-	return &env{a: a, fn: fn, parent: parent, bound: map[*types.Var]oset{}, cache: map[*types.Var]oset{}, busy: map[*types.Var]bool{}}
+	return &env{a: a, fn: fn, parent: parent, bound: map[*types.Var]oset{}, cache: map[*types.Var]oset{}, busy: map[*types.Var]bool{}, fields: map[*types.Var]map[string]oset{}}
 }
 
 func (a *analyzer) defaultOrigin(t types.Type) oset {
@@ -586,7 +588,14 @@ func (a *analyzer) originRaw(e ast.Expr, en *env) oset {
 	case *ast.SelectorExpr:
 		if sel := en.fn.pkg.info.Selections[x]; sel != nil {
 			if sel.Kind() == types.FieldVal {
-				return extend(a.originOf(x.X, en), x.Sel.Name)
+				base := a.originOf(x.X, en)
+				if len(base) == 1 && base[oFresh] {
+					// a thread-local wrapper: its field denotes whatever it was initialised with
+					if o, ok := a.litField(x.X, x.Sel.Name, en); ok {
+						return o
+					}
+				}
+				return extend(base, x.Sel.Name)
 			}
 			return oset{}
 		}
@@ -613,6 +622,106 @@ func (a *analyzer) originRaw(e ast.Expr, en *env) oset {
 		return a.callResult(x, 0, en)
 	}
 	return one(oAny)
+}
+
+// litFields: origins of the explicitly initialised fields of a struct literal (T{…} or &T{…})
+func (a *analyzer) litFields(e ast.Expr, en *env) map[string]oset {
+	e = unparen(e)
+	if u, ok := e.(*ast.UnaryExpr); ok && u.Op == token.AND {
+		e = unparen(u.X)
+	}
+	cl, ok := e.(*ast.CompositeLit)
+	if !ok {
+		return nil
+	}
+	t := a.typeOf(cl, en)
+	if t == nil {
+		return nil
+	}
+	st, ok := deref(t).Underlying().(*types.Struct)
+	if !ok {
+		return nil
+	}
+	out := map[string]oset{}
+	for i, el := range cl.Elts {
+		if kv, ok := el.(*ast.KeyValueExpr); ok {
+			if id, ok := kv.Key.(*ast.Ident); ok {
+				out[id.Name] = a.originOf(kv.Value, en)
+			}
+		} else if i < st.NumFields() {
+			out[st.Field(i).Name()] = a.originOf(el, en)
+		}
+	}
+	return out
+}
+
+// litField: origin of field f of the thread-local struct denoted by holder, when it is known from a
+// struct literal (directly, through a local variable, or through a receiver/parameter binding) or from
+// assignments `holder.f = e` in the same function
+func (a *analyzer) litField(holder ast.Expr, f string, en *env) (oset, bool) {
+	holder = unparen(holder)
+	if m := a.litFields(holder, en); m != nil {
+		if o, ok := m[f]; ok {
+			return o, true
+		}
+		return nil, false
+	}
+	id, ok := holder.(*ast.Ident)
+	if !ok {
+		return nil, false
+	}
+	v, ok := en.objOf(id).(*types.Var)
+	if !ok {
+		return nil, false
+	}
+	for e := en; e != nil; e = e.parent {
+		if m, ok := e.fields[v]; ok {
+			if o, ok := m[f]; ok {
+				return o, true
+			}
+			return nil, false
+		}
+	}
+	// local variable: literal initialisers and field assignments in its function
+	var home *env
+	for e := en; e != nil; e = e.parent {
+		if contains(e.fn, v.Pos()) {
+			home = e
+			break
+		}
+	}
+	if home == nil || home.busy[v] {
+		return nil, false
+	}
+	home.busy[v] = true
+	defer delete(home.busy, v)
+	res := oset{}
+	found := false
+	ast.Inspect(home.fn.body, func(n ast.Node) bool {
+		as, ok := n.(*ast.AssignStmt)
+		if !ok || len(as.Lhs) != len(as.Rhs) {
+			return true
+		}
+		for i, lh := range as.Lhs {
+			if home.isVarPlain(lh, v) {
+				if m := a.litFields(as.Rhs[i], home); m != nil {
+					if o, ok := m[f]; ok {
+						res.add(o)
+						found = true
+					}
+				}
+			}
+			if se, ok := unparen(lh).(*ast.SelectorExpr); ok && se.Sel.Name == f && home.isVarPlain(se.X, v) {
+				res.add(a.originOf(as.Rhs[i], home))
+				found = true
+			}
+		}
+		return true
+	})
+	if len(res) > 1 {
+		delete(res, oFresh)
+	}
+	return res, found
 }
 
 // ---------------------------------------------------------------- call resolution
@@ -756,6 +865,9 @@ func (a *analyzer) bind(fi *funcInfo, cl callee, c *ast.CallExpr, en *env) *env 
 	if fi.recv != nil {
 		if cl.recv != nil {
 			ne.bound[fi.recv] = a.originOf(cl.recv, en)
+			if m := a.litFields(cl.recv, en); m != nil {
+				ne.fields[fi.recv] = m
+			}
 		} else {
 			ne.bound[fi.recv] = a.defaultOrigin(fi.recv.Type())
 		}
@@ -774,6 +886,9 @@ func (a *analyzer) bind(fi *funcInfo, cl callee, c *ast.CallExpr, en *env) *env 
 			} else if i < len(c.Args) {
 				if a.hasIdentity(p.Type()) {
 					o = a.originOf(c.Args[i], en)
+					if m := a.litFields(c.Args[i], en); m != nil {
+						ne.fields[p] = m
+					}
 				}
 			}
 		} else {
@@ -799,6 +914,16 @@ func envKey(fi *funcInfo, ne *env) string {
 		if e.fn.recv != nil {
 			b.WriteString("|^" + e.bound[e.fn.recv].key())
 		}
+	}
+	var fk []string
+	for v, m := range ne.fields {
+		for f, o := range m {
+			fk = append(fk, v.Name()+"."+f+"="+o.key())
+		}
+	}
+	sort.Strings(fk)
+	for _, k := range fk {
+		b.WriteString("|" + k)
 	}
 	return b.String()
 }
@@ -935,6 +1060,9 @@ func (a *analyzer) analyze(fi *funcInfo, ne *env, locks lockset) {
 		return
 	}
 	a.memo[k] = true
+	if os.Getenv("LOCKS_DEBUG") != "" && strings.Contains(fi.name, os.Getenv("LOCKS_DEBUG")) {
+		fmt.Fprintln(os.Stderr, "analyze", k)
+	}
 	w := &walker{a: a, en: ne, locks: locks.copy()}
 	// locks inherited from the caller stay held for the whole call
 	for n, v := range w.locks {
